@@ -17,13 +17,27 @@
      AND mu ||x̂ - x*||^2 <= tol ||x̂ - x*||_1.                                                    [C02_panoc_qp_converges_near_minimiser]
    Hypotheses of (2),(3), all visible in the statements: coherent problem oracles; tolerance factors of the QUB and line-search tests
      equal to 0 (with positive factors strict descent is lost); force_linesearch off; no stop request / time-out; max_iter >= N, fuel.
-   NOT PROVED (explored on the implementation by the check's oracle): liveness of the OUTER ALM loop and of PANTR / FISTA; ZeroFPR under
-     ApproxKKT; positive tolerance factors; the effect of binary64 rounding (the theorems are over R).  For those stacks the missing
-     link remains `stack_reaches_converged`. *)
+   (4) THE SHIPPED STACKS: (2),(3) for PanocDir.panocD / ZeroFprDir.zerofprD, i.e. the loops with the STATEFUL provider models of
+     Directions.v inside (the models whole-run correspondence ties to PANOCSolver<…Direction> / ZeroFPRSolver<…Direction>):
+       generic, for every dirops satisfying DirWf.dir_wf (no throw on n-vectors; apply returns n-vectors):
+                                                                  C02_panocdir_returns_converged[_ApproxKKT], C02_zerofprdir_returns_converged[_ApproxKKT]
+       LBFGSDirection (memory >= 1), AndersonDirection (n, memory >= 1), NoopDirection, StructuredLBFGSDirection (memory >= 1, the capability
+       checks of initialize pass, CBFGS off):                    C02_panoc_{lbfgs,anderson,noop,struclbfgs}_returns_converged, C02_zerofpr_{…}_returns_converged,
+                                                                  C02_panoc_lbfgs_returns_converged_ApproxKKT, C02_zerofpr_lbfgs_returns_converged_ApproxKKT
+       the shipped DEFAULT inner solver PANOC + LBFGS, ApproxKKT, on a strongly convex box QP:  C02_panoc_lbfgs_qp_converges_near_minimiser
+     Route: PANOCDIR_refines_oracle_model is for COMPLETED runs, so the liveness proof is run on PanocDir / ZeroFprDir directly, pass by pass
+     (one provider pass = one oracle pass with the oracle "trace of this pass", then the oracle-level pass lemma); the provider never throws and
+     the line search never runs out of fuel (PanocDirLive.v, ZeroFprDirLive.v).  The QP corollary then follows BY REFINEMENT.
+   (5) ZeroFPR under the default criterion ApproxKKT, every direction oracle:                      C02_zerofpr_returns_converged_ApproxKKT
+   NOT PROVED (explored on the implementation by the check's oracle): liveness of the OUTER ALM loop and of PANTR / FISTA;
+     positive tolerance factors (see the note at the end of this file); the effect of binary64 rounding (the theorems are over R).
+     For those stacks the missing link remains `stack_reaches_converged`. *)
 From Coq Require Import Reals List ZArith Bool Lra Lia.
 From Flocq Require Import Raux.
+From Alpaqa Require Import Lbfgs LMQR Directions DirWf.     (* first: Lbfgs.params / state are shadowed by Panoc's below *)
 From Alpaqa Require Import Num NumR Vec Prox ProxProofs ProxVec QpBound SolverStatus SolverKernels DescentProofs StopChain StopChainProofs
-                           Panoc PanocProofs LiveVec PanocLive PanocLiveN PanocLiveKkt QpLive ZeroFpr ZeroFprProofs ZeroFprLive.
+                           Panoc PanocProofs LiveVec PanocLive PanocLiveN PanocLiveKkt QpLive ZeroFpr ZeroFprProofs ZeroFprLive ZeroFprLiveG
+                           PanocDir ZeroFprDir PanocDirLive ZeroFprDirLive.
 Import ListNotations.
 Local Open Scope R_scope.
 
@@ -508,3 +522,610 @@ Proof.
   - cbn. lia.
   - lia.
 Qed.
+
+(* ====================================================================================================================
+   (5) ZeroFPR under the DEFAULT criterion ApproxKKT (ε = ‖p/γ + ∇ψ(x) - ∇ψ(x̂)‖∞, ∇ψ(x̂) from ZeroFPR's prox iterate), ∇ψ Lg-Lipschitz,
+       for EVERY direction oracle.  Proof: ZeroFprLiveG.v (port of PanocLiveKkt.v: abstract criterion, then the instance).
+   ==================================================================================================================== *)
+Section C02_ZEROFPR_LIVE_KKT.
+  Variable psi_grad_full : list R -> R * list R * list R.
+  Variable psi_yhat : list R -> R * list R.
+  Variable grad_L : list R -> list R -> list R.
+  Variable grad_psi : list R -> list R.
+  Variables (lb ub : list (option R)).
+  Variable dir_apply : nat -> iterate (T:=R) -> proxit (T:=R) -> option (list R).   (* ARBITRARY *)
+  Variable has_initial : bool.
+  Variable P : params (T:=R).
+  Variables (x_in y_in Σ errz_in : list R).
+  Variable ls_fuel : nat.
+  Variables (ψ : list R -> R) (g : list R -> list R) (n : nat) (Lf ψinf Lg : R).
+
+  Notation never := (fun _ : counters => false).
+  Notation run := (zerofpr psi_grad_full psi_yhat grad_L grad_psi lb ub [] dir_apply has_initial never never P x_in y_in Σ errz_in ls_fuel).
+  Notation Linit := (L_init psi_grad_full grad_psi P x_in).
+
+  Hypothesis oracle_values : forall x, psi_grad psi_grad_full x = (ψ x, g x).
+  Hypothesis oracles_coherent : zcoherent psi_grad_full psi_yhat grad_L.
+  Hypothesis grad_length : forall x, length x = n -> length (g x) = n.
+  Hypothesis quadratic_upper_bound : forall u d, length u = n -> length d = n ->
+    ψ (vadd u d) <= ψ u + vdot (g u) d + Lf / 2 * vsqnorm d.
+  Hypothesis gradient_lipschitz : forall u d, length u = n -> length d = n ->
+    vsqnorm (vsub (g u) (g (vadd u d))) <= Lg * Lg * vsqnorm d.
+  Hypothesis Lg_nonneg : 0 <= Lg.
+  Hypothesis bounded_below_on_C : forall z, all_in_box lb ub z -> ψinf <= ψ z.
+  Hypothesis len_lb : length lb = n.
+  Hypothesis len_ub : length ub = n.
+  Hypothesis boxes_nonempty : Forall2 box_ne lb ub.
+  Hypothesis len_x : length x_in = n.
+  Hypothesis direction_dimension : forall j i px q, dir_apply j i px = Some q -> length q = n.
+  Hypothesis Lgamma_factor : 0 < p_Lgamma P < 1.
+  Hypothesis L_init_positive : 0 < Linit.
+  Hypothesis Lf_below_L_max : Lf <= p_Lmax P.
+  Hypothesis qub_tolerance_factor_zero : p_qub_tol P = 0.
+  Hypothesis linesearch_tolerance_factor_zero : p_ls_tol P = 0.
+  Hypothesis strictness_factor : 0 < p_beta P <= 1.
+  Hypothesis force_linesearch_off : p_force_ls P = false.
+  Hypothesis criterion : p_crit P = ApproxKKT.
+  Variables (nL nT : nat).
+  Hypothesis L_max_reached : p_Lmax P <= Linit * 2 ^ nL.
+  Hypothesis tau_min_reached : (1 / 2) ^ nT < p_tau_min P.
+  Hypothesis linesearch_fuel : (ZeroFprProofs.ls_pass_bound nL nT <= ls_fuel)%nat.
+
+  Notation Dec := (dec_kkt psi_grad_full grad_psi P x_in Lf Lg).     (* cmin·δ², δ = tol / (1/γmin + Lg): the constants of the PANOC theorem *)
+  Notation PHI0 := (Phi0 psi_grad_full grad_psi lb ub P x_in ψ g Lf).
+
+  Theorem C02_zerofpr_returns_converged_ApproxKKT : forall (N fuel : nat),
+    PHI0 - ψinf < INR N * Dec -> (N <= p_max_iter P)%nat -> (N < fuel)%nat ->
+    exists o, run fuel = Done o /\ out_status o = StConverged /\ (out_iterations o < N)%nat.
+  Proof.
+    exact (zerofpr_live_kkt psi_grad_full psi_yhat grad_L grad_psi lb ub dir_apply has_initial P x_in y_in Σ errz_in ls_fuel ψ g n Lf ψinf Lg
+             oracle_values oracles_coherent grad_length quadratic_upper_bound gradient_lipschitz Lg_nonneg bounded_below_on_C len_lb len_ub
+             boxes_nonempty len_x direction_dimension Lgamma_factor L_init_positive Lf_below_L_max qub_tolerance_factor_zero
+             linesearch_tolerance_factor_zero strictness_factor force_linesearch_off criterion nL nT L_max_reached tau_min_reached linesearch_fuel).
+  Qed.
+End C02_ZEROFPR_LIVE_KKT.
+Print Assumptions C02_zerofpr_returns_converged_ApproxKKT.
+
+(* ====================================================================================================================
+   (4) THE SHIPPED STACKS — PANOC with the stateful provider models of Directions.v inside the loop (PanocDir.panocD).
+   The problem hypotheses are those of C02_panoc_returns_converged; N is the same explicit bound (same Dec, same PHI0).
+   The only provider-specific obligation is DirWf.dir_wf: on n-vectors no call throws, and apply returns n-vectors when it returns true.
+   ==================================================================================================================== *)
+Section C02_PANOC_SHIPPED.
+  Variable psi_grad_full : list R -> R * list R * list R.
+  Variable psi_yhat : list R -> R * list R.
+  Variable grad_L : list R -> list R -> list R.
+  Variable grad_psi : list R -> list R.
+  Variables (lb ub : list (option R)).
+  Variable P : params (T:=R).
+  Variables (x_in y_in Σ errz_in : list R).
+  Variable ls_fuel : nat.
+  Variables (ψ : list R -> R) (g : list R -> list R) (n : nat) (Lf ψinf Lg : R).
+
+  Notation never := (fun _ : counters => false).
+  Notation runD D ops d0 := (panocD psi_grad_full psi_yhat grad_L grad_psi lb ub [] D ops never never P x_in y_in Σ errz_in ls_fuel d0).
+  Notation Linit := (L_init psi_grad_full grad_psi P x_in).
+
+  Hypothesis oracle_values : forall x, psi_grad psi_grad_full x = (ψ x, g x).
+  Hypothesis oracles_coherent : coherent psi_grad_full psi_yhat grad_L grad_psi P.
+  Hypothesis grad_length : forall x, length x = n -> length (g x) = n.
+  Hypothesis quadratic_upper_bound : forall u d, length u = n -> length d = n ->
+    ψ (vadd u d) <= ψ u + vdot (g u) d + Lf / 2 * vsqnorm d.
+  Hypothesis bounded_below_on_C : forall z, all_in_box lb ub z -> ψinf <= ψ z.
+  Hypothesis len_lb : length lb = n.
+  Hypothesis len_ub : length ub = n.
+  Hypothesis boxes_nonempty : Forall2 box_ne lb ub.
+  Hypothesis len_x : length x_in = n.
+  Hypothesis Lgamma_factor : 0 < p_Lgamma P < 1.
+  Hypothesis L_init_positive : 0 < Linit.
+  Hypothesis Lf_below_L_max : Lf <= p_Lmax P.
+  Hypothesis qub_tolerance_factor_zero : p_qub_tol P = 0.
+  Hypothesis linesearch_tolerance_factor_zero : p_ls_tol P = 0.
+  Hypothesis strictness_factor : 0 < p_beta P <= 1.
+  Hypothesis force_linesearch_off : p_force_ls P = false.
+  Variables (nL nT : nat).
+  Hypothesis L_max_reached : p_Lmax P <= Linit * 2 ^ nL.
+  Hypothesis tau_factor : 0 <= p_tau_factor P <= 1.
+  Hypothesis tau_min_reached : p_tau_factor P ^ nT < p_tau_min P.
+  Hypothesis linesearch_fuel : (ls_pass_bound nL nT <= ls_fuel)%nat.
+  (* the two families of criteria (each theorem uses one of them) *)
+  Hypothesis criterion_norms : p_crit P = ProjGradNorm \/ p_crit P = ProjGradNorm2 \/ p_crit P = FPRNorm \/ p_crit P = FPRNorm2.
+  Hypothesis criterion_kkt : p_crit P = ApproxKKT.
+  Hypothesis gradient_lipschitz : forall u d, length u = n -> length d = n ->
+    vsqnorm (vsub (g u) (g (vadd u d))) <= Lg * Lg * vsqnorm d.
+  Hypothesis Lg_nonneg : 0 <= Lg.
+
+  Notation Dec := (dec psi_grad_full grad_psi P x_in Lf).
+  Notation DecK := (dec_kkt psi_grad_full grad_psi P x_in Lf Lg).
+  Notation PHI0 := (Phi0 psi_grad_full grad_psi lb ub P x_in ψ g Lf).
+  Notation Converged_within D r N := (exists oD, r = DoneD D oD /\ out_status (od_out D oD) = StConverged /\ lt (out_iterations (od_out D oD)) N).
+  Notation live4 D ops d0 I0 Iv Hwf HI0 :=
+    (panocD_returns_converged psi_grad_full psi_yhat grad_L grad_psi lb ub D ops P x_in y_in Σ errz_in ls_fuel d0 ψ g n Lf ψinf
+       oracle_values oracles_coherent grad_length quadratic_upper_bound bounded_below_on_C len_lb len_ub boxes_nonempty len_x
+       Lgamma_factor L_init_positive Lf_below_L_max qub_tolerance_factor_zero linesearch_tolerance_factor_zero strictness_factor
+       force_linesearch_off nL nT L_max_reached tau_factor tau_min_reached linesearch_fuel I0 Iv Hwf HI0 criterion_norms).
+  Notation liveK D ops d0 I0 Iv Hwf HI0 :=
+    (panocD_returns_converged_kkt psi_grad_full psi_yhat grad_L grad_psi lb ub D ops P x_in y_in Σ errz_in ls_fuel d0 ψ g n Lf ψinf
+       oracle_values oracles_coherent grad_length quadratic_upper_bound bounded_below_on_C len_lb len_ub boxes_nonempty len_x
+       Lgamma_factor L_init_positive Lf_below_L_max qub_tolerance_factor_zero linesearch_tolerance_factor_zero strictness_factor
+       force_linesearch_off nL nT L_max_reached tau_factor tau_min_reached linesearch_fuel I0 Iv Hwf HI0 Lg gradient_lipschitz Lg_nonneg criterion_kkt).
+
+  (* ---- generic: EVERY provider (any state type, any operations) that does not throw on n-vectors and whose apply returns n-vectors *)
+  Theorem C02_panocdir_returns_converged : forall (D : Type) (ops : dirops R D) (d0 : D) (I0 Iv : D -> Prop),
+    dir_wf n D ops I0 Iv -> I0 d0 ->
+    forall (N fuel : nat), PHI0 - ψinf < INR N * Dec -> (N <= p_max_iter P)%nat -> (N < fuel)%nat ->
+    Converged_within D (runD D ops d0 fuel) N.
+  Proof. exact (fun D ops d0 I0 Iv Hwf HI0 => live4 D ops d0 I0 Iv Hwf HI0). Qed.
+
+  Theorem C02_panocdir_returns_converged_ApproxKKT : forall (D : Type) (ops : dirops R D) (d0 : D) (I0 Iv : D -> Prop),
+    dir_wf n D ops I0 Iv -> I0 d0 ->
+    forall (N fuel : nat), PHI0 - ψinf < INR N * DecK -> (N <= p_max_iter P)%nat -> (N < fuel)%nat ->
+    Converged_within D (runD D ops d0 fuel) N.
+  Proof. exact (fun D ops d0 I0 Iv Hwf HI0 => liveK D ops d0 I0 Iv Hwf HI0). Qed.
+
+  (* ---- LBFGSDirection: any parameters with memory >= 1 (resize throws otherwise), any CBFGS / curvature / rescaling setting,
+          any provider state to start from *)
+  Theorem C02_panoc_lbfgs_returns_converged : forall (pw : R -> R -> R) (LP : Lbfgs.params R) (rescale : bool) (d0 : Lbfgs.state R),
+    (1 <= Lbfgs.p_memory LP)%nat ->
+    forall (N fuel : nat), PHI0 - ψinf < INR N * Dec -> (N <= p_max_iter P)%nat -> (N < fuel)%nat ->
+    Converged_within _ (runD _ (lbfgs_dir n pw LP rescale) d0 fuel) N.
+  Proof. exact (fun pw LP rescale d0 Hmem => live4 _ (lbfgs_dir n pw LP rescale) d0 _ _ (lbfgs_wf n pw LP rescale Hmem) I). Qed.
+
+  Theorem C02_panoc_lbfgs_returns_converged_ApproxKKT : forall (pw : R -> R -> R) (LP : Lbfgs.params R) (rescale : bool) (d0 : Lbfgs.state R),
+    (1 <= Lbfgs.p_memory LP)%nat ->
+    forall (N fuel : nat), PHI0 - ψinf < INR N * DecK -> (N <= p_max_iter P)%nat -> (N < fuel)%nat ->
+    Converged_within _ (runD _ (lbfgs_dir n pw LP rescale) d0 fuel) N.
+  Proof. exact (fun pw LP rescale d0 Hmem => liveK _ (lbfgs_dir n pw LP rescale) d0 _ _ (lbfgs_wf n pw LP rescale Hmem) I). Qed.
+
+  (* ---- AndersonDirection: n >= 1 and memory >= 1 (window min(n, memory) non-empty); starts from the default-constructed accelerator *)
+  Theorem C02_panoc_anderson_returns_converged : forall (mem : nat) (mdf : R) (rescale : bool),
+    (0 < n)%nat -> (0 < mem)%nat ->
+    forall (N fuel : nat), PHI0 - ψinf < INR N * Dec -> (N <= p_max_iter P)%nat -> (N < fuel)%nat ->
+    Converged_within _ (runD _ (anderson_dir n mem mdf rescale) (anderson_unsized mem mdf) fuel) N.
+  Proof.
+    exact (fun mem mdf rescale Hn Hmem => live4 _ (anderson_dir n mem mdf rescale) (anderson_unsized mem mdf) _ _ (anderson_wf n mem mdf rescale Hn Hmem)
+             (fun E : length (@nil R) = n => Nat.lt_irrefl 0 (eq_ind_r (fun k => (0 < k)%nat) Hn E))).
+  Qed.
+
+  (* ---- NoopDirection *)
+  Theorem C02_panoc_noop_returns_converged :
+    forall (N fuel : nat), PHI0 - ψinf < INR N * Dec -> (N <= p_max_iter P)%nat -> (N < fuel)%nat ->
+    Converged_within _ (runD _ (noop_dir (T:=R)) tt fuel) N.
+  Proof. exact (live4 _ (noop_dir (T:=R)) tt _ _ (noop_wf n) I). Qed.
+
+  (* ---- StructuredLBFGSDirection: for every problem data it looks at (its own C, l1, D, Hessian members: arbitrary), under the hypotheses
+          that exclude its three `throw`s: memory >= 1; the capability checks of initialize pass (struct_init_ok: provides_eval_inactive_indices_res_lna
+          and, when hessian_vec_factor != 0 without finite differences, the Hessian-product members it needs); CBFGS off (apply_masked throws) *)
+  Theorem C02_panoc_struclbfgs_returns_converged :
+    forall (pw : R -> R -> R) (LP : Lbfgs.params R) (Clb Cub : list (option R)) (Cl1 : list R) (Dlb Dub : list (option R))
+           (prov_inactive prov_hess_L prov_hess_psi prov_box_D prov_grad_gi : bool)
+           (grad_psi_at : list R -> list R -> list R -> list R) (hess_L_prod : list R -> list R -> R -> list R -> list R)
+           (hess_psi_prod : list R -> list R -> list R -> R -> list R -> list R) (eval_g : list R -> list R) (grad_gi : list R -> nat -> list R)
+           (cbrt_eps hvf : R) (fd full_aug use_scaled : bool) (d0 : sdstate (T:=R)),
+    (1 <= Lbfgs.p_memory LP)%nat ->
+    struct_init_ok prov_inactive prov_hess_L prov_hess_psi prov_box_D prov_grad_gi hvf fd full_aug = true ->
+    cbfgs_on LP = false ->
+    forall (N fuel : nat), PHI0 - ψinf < INR N * Dec -> (N <= p_max_iter P)%nat -> (N < fuel)%nat ->
+    Converged_within _ (runD _ (struct_dir n pw LP Clb Cub Cl1 Dlb Dub prov_inactive prov_hess_L prov_hess_psi prov_box_D prov_grad_gi
+                                            grad_psi_at hess_L_prod hess_psi_prod eval_g grad_gi cbrt_eps hvf fd full_aug use_scaled) d0 fuel) N.
+  Proof.
+    exact (fun pw LP Clb Cub Cl1 Dlb Dub a1 a2 a3 a4 a5 f1 f2 f3 f4 f5 ce hvf fd fa us d0 Hmem Hcap Hcb =>
+             live4 _ (struct_dir n pw LP Clb Cub Cl1 Dlb Dub a1 a2 a3 a4 a5 f1 f2 f3 f4 f5 ce hvf fd fa us) d0 _ _
+                   (struct_wf n pw LP Clb Cub Cl1 Dlb Dub a1 a2 a3 a4 a5 f1 f2 f3 f4 f5 ce hvf fd fa us Hmem Hcap Hcb) I).
+  Qed.
+
+  (* ---- END TO END for the shipped default inner solver PANOC + LBFGSDirection, default criterion, on a strongly convex box QP
+          (from C02_panoc_qp_converges_near_minimiser BY REFINEMENT: the completed provider run is the oracle run with its own trace) *)
+  Variables (Qmul : list R -> list R) (c : list R) (μ : R) (xs rs : list R).
+  Hypothesis gradient_of_qp : forall x, length x = n -> g x = vplus (Qmul x) c.
+  Hypothesis Q_length : forall x, length x = n -> length (Qmul x) = n.
+  Hypothesis c_length : length c = n.
+  Hypothesis xs_rs_length : length xs = n /\ length rs = n.
+  Hypothesis strongly_convex : forall x, length x = n -> μ_ok μ Qmul x xs.
+  Hypothesis exact_kkt_stationarity : vplus (Qmul xs) c = map Ropp rs.
+  Hypothesis exact_kkt_C : in_boxv lb ub xs /\ in_ncone lb ub xs rs.
+
+  Theorem C02_panoc_lbfgs_qp_converges_near_minimiser : forall (pw : R -> R -> R) (LP : Lbfgs.params R) (rescale : bool) (d0 : Lbfgs.state R),
+    (1 <= Lbfgs.p_memory LP)%nat ->
+    forall (N fuel : nat), PHI0 - ψinf < INR N * DecK -> (N <= p_max_iter P)%nat -> (N < fuel)%nat ->
+    exists oD, runD _ (lbfgs_dir n pw LP rescale) d0 fuel = DoneD _ oD /\
+      out_status (od_out _ oD) = StConverged /\ (out_iterations (od_out _ oD) < N)%nat /\
+      μ * dot (vminus (out_x (od_out _ oD)) xs) (vminus (out_x (od_out _ oD)) xs) <= eff_tol (o_tol P) * norm1 (vminus (out_x (od_out _ oD)) xs).
+  Proof.
+    exact (fun pw LP rescale d0 Hmem =>
+      panocD_qp_converges_near_minimiser psi_grad_full psi_yhat grad_L grad_psi lb ub _ (lbfgs_dir n pw LP rescale) P x_in y_in Σ errz_in ls_fuel d0
+        ψ g n Lf ψinf oracle_values oracles_coherent grad_length quadratic_upper_bound bounded_below_on_C len_lb len_ub boxes_nonempty len_x
+        Lgamma_factor L_init_positive Lf_below_L_max qub_tolerance_factor_zero linesearch_tolerance_factor_zero strictness_factor
+        force_linesearch_off nL nT L_max_reached tau_factor tau_min_reached linesearch_fuel _ _ (lbfgs_wf n pw LP rescale Hmem) I
+        Lg gradient_lipschitz Lg_nonneg Qmul c μ xs rs gradient_of_qp Q_length c_length xs_rs_length strongly_convex exact_kkt_stationarity exact_kkt_C
+        criterion_kkt).
+  Qed.
+End C02_PANOC_SHIPPED.
+Print Assumptions C02_panocdir_returns_converged.
+Print Assumptions C02_panocdir_returns_converged_ApproxKKT.
+Print Assumptions C02_panoc_lbfgs_returns_converged.
+Print Assumptions C02_panoc_lbfgs_returns_converged_ApproxKKT.
+Print Assumptions C02_panoc_anderson_returns_converged.
+Print Assumptions C02_panoc_noop_returns_converged.
+Print Assumptions C02_panoc_struclbfgs_returns_converged.
+Print Assumptions C02_panoc_lbfgs_qp_converges_near_minimiser.
+
+(* ---- the same for ZeroFPR (ZeroFprDir.zerofprD), for both values of update_direction_from_prox_step *)
+Section C02_ZEROFPR_SHIPPED.
+  Variable psi_grad_full : list R -> R * list R * list R.
+  Variable psi_yhat : list R -> R * list R.
+  Variable grad_L : list R -> list R -> list R.
+  Variable grad_psi : list R -> list R.
+  Variables (lb ub : list (option R)).
+  Variable P : params (T:=R).
+  Variable from_prox : bool.                                   (* update_direction_from_prox_step *)
+  Variables (x_in y_in Σ errz_in : list R).
+  Variable ls_fuel : nat.
+  Variables (ψ : list R -> R) (g : list R -> list R) (n : nat) (Lf ψinf Lg : R).
+
+  Notation never := (fun _ : counters => false).
+  Notation runD D ops d0 := (zerofprD psi_grad_full psi_yhat grad_L grad_psi lb ub [] D ops never never P from_prox x_in y_in Σ errz_in ls_fuel d0).
+  Notation Linit := (L_init psi_grad_full grad_psi P x_in).
+
+  Hypothesis oracle_values : forall x, psi_grad psi_grad_full x = (ψ x, g x).
+  Hypothesis oracles_coherent : zcoherent psi_grad_full psi_yhat grad_L.
+  Hypothesis grad_length : forall x, length x = n -> length (g x) = n.
+  Hypothesis quadratic_upper_bound : forall u d, length u = n -> length d = n ->
+    ψ (vadd u d) <= ψ u + vdot (g u) d + Lf / 2 * vsqnorm d.
+  Hypothesis bounded_below_on_C : forall z, all_in_box lb ub z -> ψinf <= ψ z.
+  Hypothesis len_lb : length lb = n.
+  Hypothesis len_ub : length ub = n.
+  Hypothesis boxes_nonempty : Forall2 box_ne lb ub.
+  Hypothesis len_x : length x_in = n.
+  Hypothesis Lgamma_factor : 0 < p_Lgamma P < 1.
+  Hypothesis L_init_positive : 0 < Linit.
+  Hypothesis Lf_below_L_max : Lf <= p_Lmax P.
+  Hypothesis qub_tolerance_factor_zero : p_qub_tol P = 0.
+  Hypothesis linesearch_tolerance_factor_zero : p_ls_tol P = 0.
+  Hypothesis strictness_factor : 0 < p_beta P <= 1.
+  Hypothesis force_linesearch_off : p_force_ls P = false.
+  Variables (nL nT : nat).
+  Hypothesis L_max_reached : p_Lmax P <= Linit * 2 ^ nL.
+  Hypothesis tau_min_reached : (1 / 2) ^ nT < p_tau_min P.
+  Hypothesis linesearch_fuel : (ZeroFprProofs.ls_pass_bound nL nT <= ls_fuel)%nat.
+  Hypothesis criterion_norms : p_crit P = ProjGradNorm \/ p_crit P = ProjGradNorm2 \/ p_crit P = FPRNorm \/ p_crit P = FPRNorm2.
+  Hypothesis criterion_kkt : p_crit P = ApproxKKT.
+  Hypothesis gradient_lipschitz : forall u d, length u = n -> length d = n ->
+    vsqnorm (vsub (g u) (g (vadd u d))) <= Lg * Lg * vsqnorm d.
+  Hypothesis Lg_nonneg : 0 <= Lg.
+
+  Notation Dec := (dec psi_grad_full grad_psi P x_in Lf).
+  Notation DecK := (dec_kkt psi_grad_full grad_psi P x_in Lf Lg).
+  Notation PHI0 := (Phi0 psi_grad_full grad_psi lb ub P x_in ψ g Lf).
+  Notation Converged_within D r N := (exists oD, r = ZDoneD D oD /\ out_status (zo_out D oD) = StConverged /\ lt (out_iterations (zo_out D oD)) N).
+  Notation live4 D ops d0 I0 Iv Hwf HI0 :=
+    (zerofprD_returns_converged psi_grad_full psi_yhat grad_L grad_psi lb ub D ops P from_prox x_in y_in Σ errz_in ls_fuel d0 ψ g n Lf ψinf
+       oracle_values oracles_coherent grad_length quadratic_upper_bound bounded_below_on_C len_lb len_ub boxes_nonempty len_x
+       Lgamma_factor L_init_positive Lf_below_L_max qub_tolerance_factor_zero linesearch_tolerance_factor_zero strictness_factor
+       force_linesearch_off nL nT L_max_reached tau_min_reached linesearch_fuel I0 Iv Hwf HI0 criterion_norms).
+  Notation liveK D ops d0 I0 Iv Hwf HI0 :=
+    (zerofprD_returns_converged_kkt psi_grad_full psi_yhat grad_L grad_psi lb ub D ops P from_prox x_in y_in Σ errz_in ls_fuel d0 ψ g n Lf ψinf
+       oracle_values oracles_coherent grad_length quadratic_upper_bound bounded_below_on_C len_lb len_ub boxes_nonempty len_x
+       Lgamma_factor L_init_positive Lf_below_L_max qub_tolerance_factor_zero linesearch_tolerance_factor_zero strictness_factor
+       force_linesearch_off nL nT L_max_reached tau_min_reached linesearch_fuel I0 Iv Hwf HI0 Lg gradient_lipschitz Lg_nonneg criterion_kkt).
+
+  Theorem C02_zerofprdir_returns_converged : forall (D : Type) (ops : dirops R D) (d0 : D) (I0 Iv : D -> Prop),
+    dir_wf n D ops I0 Iv -> I0 d0 ->
+    forall (N fuel : nat), PHI0 - ψinf < INR N * Dec -> (N <= p_max_iter P)%nat -> (N < fuel)%nat ->
+    Converged_within D (runD D ops d0 fuel) N.
+  Proof. exact (fun D ops d0 I0 Iv Hwf HI0 => live4 D ops d0 I0 Iv Hwf HI0). Qed.
+
+  Theorem C02_zerofprdir_returns_converged_ApproxKKT : forall (D : Type) (ops : dirops R D) (d0 : D) (I0 Iv : D -> Prop),
+    dir_wf n D ops I0 Iv -> I0 d0 ->
+    forall (N fuel : nat), PHI0 - ψinf < INR N * DecK -> (N <= p_max_iter P)%nat -> (N < fuel)%nat ->
+    Converged_within D (runD D ops d0 fuel) N.
+  Proof. exact (fun D ops d0 I0 Iv Hwf HI0 => liveK D ops d0 I0 Iv Hwf HI0). Qed.
+
+  Theorem C02_zerofpr_lbfgs_returns_converged : forall (pw : R -> R -> R) (LP : Lbfgs.params R) (rescale : bool) (d0 : Lbfgs.state R),
+    (1 <= Lbfgs.p_memory LP)%nat ->
+    forall (N fuel : nat), PHI0 - ψinf < INR N * Dec -> (N <= p_max_iter P)%nat -> (N < fuel)%nat ->
+    Converged_within _ (runD _ (lbfgs_dir n pw LP rescale) d0 fuel) N.
+  Proof. exact (fun pw LP rescale d0 Hmem => live4 _ (lbfgs_dir n pw LP rescale) d0 _ _ (lbfgs_wf n pw LP rescale Hmem) I). Qed.
+
+  Theorem C02_zerofpr_lbfgs_returns_converged_ApproxKKT : forall (pw : R -> R -> R) (LP : Lbfgs.params R) (rescale : bool) (d0 : Lbfgs.state R),
+    (1 <= Lbfgs.p_memory LP)%nat ->
+    forall (N fuel : nat), PHI0 - ψinf < INR N * DecK -> (N <= p_max_iter P)%nat -> (N < fuel)%nat ->
+    Converged_within _ (runD _ (lbfgs_dir n pw LP rescale) d0 fuel) N.
+  Proof. exact (fun pw LP rescale d0 Hmem => liveK _ (lbfgs_dir n pw LP rescale) d0 _ _ (lbfgs_wf n pw LP rescale Hmem) I). Qed.
+
+  Theorem C02_zerofpr_anderson_returns_converged : forall (mem : nat) (mdf : R) (rescale : bool),
+    (0 < n)%nat -> (0 < mem)%nat ->
+    forall (N fuel : nat), PHI0 - ψinf < INR N * Dec -> (N <= p_max_iter P)%nat -> (N < fuel)%nat ->
+    Converged_within _ (runD _ (anderson_dir n mem mdf rescale) (anderson_unsized mem mdf) fuel) N.
+  Proof.
+    exact (fun mem mdf rescale Hn Hmem => live4 _ (anderson_dir n mem mdf rescale) (anderson_unsized mem mdf) _ _ (anderson_wf n mem mdf rescale Hn Hmem)
+             (fun E : length (@nil R) = n => Nat.lt_irrefl 0 (eq_ind_r (fun k => (0 < k)%nat) Hn E))).
+  Qed.
+
+  Theorem C02_zerofpr_noop_returns_converged :
+    forall (N fuel : nat), PHI0 - ψinf < INR N * Dec -> (N <= p_max_iter P)%nat -> (N < fuel)%nat ->
+    Converged_within _ (runD _ (noop_dir (T:=R)) tt fuel) N.
+  Proof. exact (live4 _ (noop_dir (T:=R)) tt _ _ (noop_wf n) I). Qed.
+
+  Theorem C02_zerofpr_struclbfgs_returns_converged :
+    forall (pw : R -> R -> R) (LP : Lbfgs.params R) (Clb Cub : list (option R)) (Cl1 : list R) (Dlb Dub : list (option R))
+           (prov_inactive prov_hess_L prov_hess_psi prov_box_D prov_grad_gi : bool)
+           (grad_psi_at : list R -> list R -> list R -> list R) (hess_L_prod : list R -> list R -> R -> list R -> list R)
+           (hess_psi_prod : list R -> list R -> list R -> R -> list R -> list R) (eval_g : list R -> list R) (grad_gi : list R -> nat -> list R)
+           (cbrt_eps hvf : R) (fd full_aug use_scaled : bool) (d0 : sdstate (T:=R)),
+    (1 <= Lbfgs.p_memory LP)%nat ->
+    struct_init_ok prov_inactive prov_hess_L prov_hess_psi prov_box_D prov_grad_gi hvf fd full_aug = true ->
+    cbfgs_on LP = false ->
+    forall (N fuel : nat), PHI0 - ψinf < INR N * Dec -> (N <= p_max_iter P)%nat -> (N < fuel)%nat ->
+    Converged_within _ (runD _ (struct_dir n pw LP Clb Cub Cl1 Dlb Dub prov_inactive prov_hess_L prov_hess_psi prov_box_D prov_grad_gi
+                                            grad_psi_at hess_L_prod hess_psi_prod eval_g grad_gi cbrt_eps hvf fd full_aug use_scaled) d0 fuel) N.
+  Proof.
+    exact (fun pw LP Clb Cub Cl1 Dlb Dub a1 a2 a3 a4 a5 f1 f2 f3 f4 f5 ce hvf fd fa us d0 Hmem Hcap Hcb =>
+             live4 _ (struct_dir n pw LP Clb Cub Cl1 Dlb Dub a1 a2 a3 a4 a5 f1 f2 f3 f4 f5 ce hvf fd fa us) d0 _ _
+                   (struct_wf n pw LP Clb Cub Cl1 Dlb Dub a1 a2 a3 a4 a5 f1 f2 f3 f4 f5 ce hvf fd fa us Hmem Hcap Hcb) I).
+  Qed.
+End C02_ZEROFPR_SHIPPED.
+Print Assumptions C02_zerofprdir_returns_converged.
+Print Assumptions C02_zerofprdir_returns_converged_ApproxKKT.
+Print Assumptions C02_zerofpr_lbfgs_returns_converged.
+Print Assumptions C02_zerofpr_lbfgs_returns_converged_ApproxKKT.
+Print Assumptions C02_zerofpr_anderson_returns_converged.
+Print Assumptions C02_zerofpr_noop_returns_converged.
+Print Assumptions C02_zerofpr_struclbfgs_returns_converged.
+
+(* ====================================================================================================================
+   non-vacuity of (4): the instance of C02_liveness_nonvacuous (ψ = x²/2 on R, n = 1, x_in = 1, ProjGradNorm, N = 1) satisfies every
+   hypothesis of the generic theorems for EVERY well-formed provider, and each shipped provider is well-formed with its DEFAULT
+   parameters (LBFGS / StructuredLBFGS: memory 10, CBFGS off, curvature-based step; Anderson: memory 10; Structured: hessian_vec_factor 0,
+   finite differences, FallbackToProjectedGradient, a problem that provides eval_inactive_indices_res_lna and nothing else).
+   ==================================================================================================================== *)
+Lemma lv_L_init (PP : params (T:=R)) : p_L0 PP = 1 -> L_init (fun x => (lv_ψ x, x, [])) (fun x => x) PP [1] = 1.
+Proof.
+  intros E. unfold L_init, init_L. rewrite E. change (@nleb R NumR 1 (@n0 R NumR)) with (Rle_bool 1 0).
+  destruct (Rle_bool_spec 1 0) as [H|_]; [lra|]. reflexivity.
+Qed.
+
+Lemma C02_panocdir_nonvacuous : forall (D : Type) (ops : dirops R D) (d0 : D) (I0 Iv : D -> Prop), dir_wf 1 D ops I0 Iv -> I0 d0 ->
+  exists oD, panocD (T:=R) (fun x => (lv_ψ x, x, [])) (fun x => (lv_ψ x, [])) (fun x _ => x) (fun x => x) [None] [None] []
+                  D ops (fun _ => false) (fun _ => false) lv_P [1] [] [] [] 18 d0 2 = DoneD D oD /\
+            out_status (od_out D oD) = StConverged /\ (out_iterations (od_out D oD) < 1)%nat.
+Proof.
+  intros D ops d0 I0 Iv Hwf HI0.
+  pose proof (lv_L_init lv_P eq_refl) as HL.
+  apply (C02_panocdir_returns_converged (fun x => (lv_ψ x, x, [])) (fun x => (lv_ψ x, [])) (fun x _ => x) (fun x => x) [None] [None]
+           lv_P [1] [] [] [] 18 lv_ψ (fun x => x) 1 1 0) with (nL := 2%nat) (nT := 3%nat) (I0 := I0) (Iv := Iv).
+  - intros x. reflexivity.
+  - intros x. split; reflexivity.
+  - intros x Hx. exact Hx.
+  - intros [|a [|? ?]] [|b [|? ?]]; cbn [length]; intros; try discriminate. unfold lv_ψ. cbn. lra.
+  - intros z _. unfold lv_ψ. pose proof (vsqnorm_nonneg z). lra.
+  - reflexivity.
+  - reflexivity.
+  - repeat constructor.
+  - reflexivity.
+  - cbn. lra.
+  - rewrite HL. lra.
+  - cbn. lra.
+  - reflexivity.
+  - reflexivity.
+  - cbn. lra.
+  - reflexivity.
+  - rewrite HL. cbn. lra.
+  - cbn. lra.
+  - cbn. lra.
+  - cbn. lia.
+  - left. reflexivity.
+  - exact Hwf.
+  - exact HI0.
+  - unfold Phi0. unfold dec, cmin, delta, gam0, gam_min, Lbar, tol, eff_tol. rewrite HL.
+    cbn [lv_P p_beta p_Lgamma p_crit o_tol]. change (@nltb R NumR (@n0 R NumR) 1) with (Rlt_bool 0 1).
+    destruct (Rlt_bool_spec 0 1) as [_|H]; [|lra].
+    replace (Rmax 1 (2 * 1)) with 2 by (unfold Rmax; destruct (Rle_dec 1 (2 * 1)); lra).
+    unfold lv_ψ, proj_grad_step. cbn. lra.
+  - cbn. lia.
+  - lia.
+Qed.
+
+Lemma C02_zerofprdir_nonvacuous : forall (D : Type) (ops : dirops R D) (from_prox : bool) (d0 : D) (I0 Iv : D -> Prop), dir_wf 1 D ops I0 Iv -> I0 d0 ->
+  exists oD, zerofprD (T:=R) (fun x => (lv_ψ x, x, [])) (fun x => (lv_ψ x, [])) (fun x _ => x) (fun x => x) [None] [None] []
+                  D ops (fun _ => false) (fun _ => false) lv_P from_prox [1] [] [] [] 18 d0 2 = ZDoneD D oD /\
+            out_status (zo_out D oD) = StConverged /\ (out_iterations (zo_out D oD) < 1)%nat.
+Proof.
+  intros D ops from_prox d0 I0 Iv Hwf HI0.
+  pose proof (lv_L_init lv_P eq_refl) as HL.
+  apply (C02_zerofprdir_returns_converged (fun x => (lv_ψ x, x, [])) (fun x => (lv_ψ x, [])) (fun x _ => x) (fun x => x) [None] [None]
+           lv_P from_prox [1] [] [] [] 18 lv_ψ (fun x => x) 1 1 0) with (nL := 2%nat) (nT := 3%nat) (I0 := I0) (Iv := Iv).
+  - intros x. reflexivity.
+  - intros x. reflexivity.
+  - intros x Hx. exact Hx.
+  - intros [|a [|? ?]] [|b [|? ?]]; cbn [length]; intros; try discriminate. unfold lv_ψ. cbn. lra.
+  - intros z _. unfold lv_ψ. pose proof (vsqnorm_nonneg z). lra.
+  - reflexivity.
+  - reflexivity.
+  - repeat constructor.
+  - reflexivity.
+  - cbn. lra.
+  - rewrite HL. lra.
+  - cbn. lra.
+  - reflexivity.
+  - reflexivity.
+  - cbn. lra.
+  - reflexivity.
+  - rewrite HL. cbn. lra.
+  - cbn. lra.
+  - cbn. lia.
+  - left. reflexivity.
+  - exact Hwf.
+  - exact HI0.
+  - unfold Phi0. unfold dec, cmin, delta, gam0, gam_min, Lbar, tol, eff_tol. rewrite HL.
+    cbn [lv_P p_beta p_Lgamma p_crit o_tol]. change (@nltb R NumR (@n0 R NumR) 1) with (Rlt_bool 0 1).
+    destruct (Rlt_bool_spec 0 1) as [_|H]; [|lra].
+    replace (Rmax 1 (2 * 1)) with 2 by (unfold Rmax; destruct (Rle_dec 1 (2 * 1)); lra).
+    unfold lv_ψ, proj_grad_step. cbn. lra.
+  - cbn. lia.
+  - lia.
+Qed.
+
+(* the default parameter records *)
+Definition lv_LP : Lbfgs.params R :=
+  {| Lbfgs.p_memory := 10; Lbfgs.p_min_div_fac := 0; Lbfgs.p_min_abs_s := 0; Lbfgs.p_cbfgs_α := 1; Lbfgs.p_cbfgs_ϵ := 0;
+     Lbfgs.p_force_pos_def := true; Lbfgs.p_curvature := true |}.
+Definition lv_pw (a b : R) : R := 1.        (* std::pow: only read by the CBFGS test, which is off *)
+
+Example C02_shipped_providers_well_formed :
+  dir_wf 1 _ (lbfgs_dir 1 lv_pw lv_LP false) (fun _ => True) (LIv 1 lv_LP) /\
+  dir_wf 1 _ (anderson_dir 1 10 0 false) (AI0 1) (AIv 1) /\ AI0 1 (anderson_unsized (T:=R) 10 0) /\
+  dir_wf 1 _ (noop_dir (T:=R)) (fun _ => True) (fun _ => True) /\
+  dir_wf 1 _ (struct_dir 1 lv_pw lv_LP [None] [None] [] [] [] true false false false false
+                         (fun x _ _ => x) (fun _ _ _ v => v) (fun _ _ _ _ v => v) (fun _ => []) (fun _ _ => []) (1/100000) 0 true true false)
+         (fun _ => True) (SIv 1 lv_LP).
+Proof.
+  assert (E00 : Req_bool 0 0 = true) by (apply Req_bool_iff; reflexivity).
+  assert (L00 : Rlt_bool 0 0 = false) by (apply Rlt_bool_false_iff; lra).
+  split; [apply lbfgs_wf; cbn; lia|]. split; [apply anderson_wf; lia|]. split; [cbn; discriminate|]. split; [apply noop_wf|].
+  apply struct_wf; [cbn; lia| |exact L00].
+  unfold struct_init_ok, hvf_on. change (@neqb R NumR 0 (@n0 R NumR)) with (Req_bool 0 0). rewrite E00. reflexivity.
+Qed.
+
+Example C02_panoc_shipped_nonvacuous :
+  (exists oD, panocD (T:=R) (fun x => (lv_ψ x, x, [])) (fun x => (lv_ψ x, [])) (fun x _ => x) (fun x => x) [None] [None] []
+                _ (lbfgs_dir 1 lv_pw lv_LP false) (fun _ => false) (fun _ => false) lv_P [1] [] [] [] 18 lbfgs_unsized 2 = DoneD _ oD /\
+              out_status (od_out _ oD) = StConverged /\ (out_iterations (od_out _ oD) < 1)%nat) /\
+  (exists oD, panocD (T:=R) (fun x => (lv_ψ x, x, [])) (fun x => (lv_ψ x, [])) (fun x _ => x) (fun x => x) [None] [None] []
+                _ (anderson_dir 1 10 0 false) (fun _ => false) (fun _ => false) lv_P [1] [] [] [] 18 (anderson_unsized 10 0) 2 = DoneD _ oD /\
+              out_status (od_out _ oD) = StConverged /\ (out_iterations (od_out _ oD) < 1)%nat) /\
+  (exists oD, zerofprD (T:=R) (fun x => (lv_ψ x, x, [])) (fun x => (lv_ψ x, [])) (fun x _ => x) (fun x => x) [None] [None] []
+                _ (lbfgs_dir 1 lv_pw lv_LP false) (fun _ => false) (fun _ => false) lv_P false [1] [] [] [] 18 lbfgs_unsized 2 = ZDoneD _ oD /\
+              out_status (zo_out _ oD) = StConverged /\ (out_iterations (zo_out _ oD) < 1)%nat).
+Proof.
+  destruct C02_shipped_providers_well_formed as (W1 & W2 & W3 & _).
+  split; [exact (C02_panocdir_nonvacuous _ _ lbfgs_unsized _ _ W1 I)|].
+  split; [exact (C02_panocdir_nonvacuous _ _ _ _ _ W2 W3)|].
+  exact (C02_zerofprdir_nonvacuous _ _ false lbfgs_unsized _ _ W1 I).
+Qed.
+
+(* non-vacuity of the end-to-end theorem for the shipped default PANOC + LBFGS stack and of the ZeroFPR ApproxKKT theorem:
+   the instance of C02_qp_end_to_end_nonvacuous (min x²/2 on [-1, 2] from x_in = 1, ApproxKKT with tolerance 1, N = 19) *)
+Lemma lv_kkt_bound :
+  Phi0 (fun x => (lv_ψ x, x, [])) (fun x => x) [Some (-1)] [Some 2] lv_Pk [1] lv_ψ (fun x => x) 1 - 0 <
+  INR 19 * dec_kkt (fun x => (lv_ψ x, x, [])) (fun x => x) lv_Pk [1] 1 1.
+Proof.
+  pose proof (lv_L_init lv_Pk eq_refl) as HL.
+  assert (Htol : eff_tol (o_tol lv_Pk) = 1).
+  { unfold eff_tol. cbn [lv_Pk o_tol]. change (@nltb R NumR (@n0 R NumR) 1) with (Rlt_bool 0 1).
+    destruct (Rlt_bool_spec 0 1) as [_|H]; [reflexivity|lra]. }
+  unfold Phi0. unfold dec_kkt, delta_kkt, cmin, gam0, gam_min, Lbar, tol. rewrite HL, Htol.
+  cbn [lv_Pk p_beta p_Lgamma].
+  replace (Rmax 1 (2 * 1)) with 2 by (unfold Rmax; destruct (Rle_dec 1 (2 * 1)); lra).
+  unfold lv_ψ, proj_grad_step. cbn. numR. rbool; try lra.
+  all: replace (INR 19) with 19 by (simpl; lra); lra.
+Qed.
+
+Example C02_panoc_lbfgs_qp_nonvacuous :
+  exists oD, panocD (T:=R) (fun x => (lv_ψ x, x, [])) (fun x => (lv_ψ x, [])) (fun x _ => x) (fun x => x) [Some (-1)] [Some 2] []
+                  _ (lbfgs_dir 1 lv_pw lv_LP false) (fun _ => false) (fun _ => false) lv_Pk [1] [] [] [] 18 lbfgs_unsized 20 = DoneD _ oD /\
+            out_status (od_out _ oD) = StConverged /\ (out_iterations (od_out _ oD) < 19)%nat /\
+            1 * dot (vminus (out_x (od_out _ oD)) [0]) (vminus (out_x (od_out _ oD)) [0]) <= eff_tol (o_tol lv_Pk) * norm1 (vminus (out_x (od_out _ oD)) [0]).
+Proof.
+  pose proof (lv_L_init lv_Pk eq_refl) as HL.
+  apply (C02_panoc_lbfgs_qp_converges_near_minimiser (fun x => (lv_ψ x, x, [])) (fun x => (lv_ψ x, [])) (fun x _ => x) (fun x => x)
+           [Some (-1)] [Some 2] lv_Pk [1] [] [] [] 18 lv_ψ (fun x => x) 1 1 0 1) with (nL := 2%nat) (nT := 3%nat) (Qmul := fun x => x) (c := [0]) (rs := [0]).
+  - intros x. reflexivity.
+  - intros x. split; reflexivity.
+  - intros x Hx. exact Hx.
+  - intros [|a [|? ?]] [|b [|? ?]]; cbn [length]; intros; try discriminate. unfold lv_ψ. cbn. lra.
+  - intros z _. unfold lv_ψ. pose proof (vsqnorm_nonneg z). lra.
+  - reflexivity.
+  - reflexivity.
+  - repeat constructor. cbn. lra.
+  - reflexivity.
+  - cbn. lra.
+  - rewrite HL. lra.
+  - cbn. lra.
+  - reflexivity.
+  - reflexivity.
+  - cbn. lra.
+  - reflexivity.
+  - rewrite HL. cbn. lra.
+  - cbn. lra.
+  - cbn. lra.
+  - cbn. lia.
+  - reflexivity.
+  - intros [|a [|? ?]] [|b [|? ?]]; cbn [length]; intros; try discriminate. cbn. nra.
+  - lra.
+  - intros [|a [|? ?]]; cbn [length]; intros; try discriminate. cbn. f_equal. lra.
+  - intros x Hx. exact Hx.
+  - reflexivity.
+  - split; reflexivity.
+  - intros [|a [|? ?]]; cbn [length]; intros; try discriminate. unfold μ_ok, dot, vminus. cbn. lra.
+  - cbn. f_equal. lra.
+  - unfold in_boxv, in_ncone. cbn [combine]. split; (apply Forall2_cons; [|apply Forall2_nil]).
+    + unfold in_box, lb_ok, ub_ok. cbn. lra.
+    + cbn. intros; lra.
+  - cbn. lia.
+  - exact lv_kkt_bound.
+  - cbn. lia.
+  - lia.
+Qed.
+
+Example C02_zerofpr_kkt_nonvacuous : forall (dir_apply : nat -> iterate (T:=R) -> proxit (T:=R) -> option (list R)) (has_initial : bool),
+  (forall j i px q, dir_apply j i px = Some q -> length q = 1%nat) ->
+  exists o, zerofpr (T:=R) (fun x => (lv_ψ x, x, [])) (fun x => (lv_ψ x, [])) (fun x _ => x) (fun x => x) [Some (-1)] [Some 2] []
+                  dir_apply has_initial (fun _ => false) (fun _ => false) lv_Pk [1] [] [] [] 18 20 = Done o /\
+            out_status o = StConverged /\ (out_iterations o < 19)%nat.
+Proof.
+  intros dir_apply has_initial Hdir.
+  pose proof (lv_L_init lv_Pk eq_refl) as HL.
+  apply (C02_zerofpr_returns_converged_ApproxKKT (fun x => (lv_ψ x, x, [])) (fun x => (lv_ψ x, [])) (fun x _ => x) (fun x => x)
+           [Some (-1)] [Some 2] dir_apply has_initial lv_Pk [1] [] [] [] 18 lv_ψ (fun x => x) 1 1 0 1) with (nL := 2%nat) (nT := 3%nat).
+  - intros x. reflexivity.
+  - intros x. reflexivity.
+  - intros x Hx. exact Hx.
+  - intros [|a [|? ?]] [|b [|? ?]]; cbn [length]; intros; try discriminate. unfold lv_ψ. cbn. lra.
+  - intros [|a [|? ?]] [|b [|? ?]]; cbn [length]; intros; try discriminate. cbn. nra.
+  - lra.
+  - intros z _. unfold lv_ψ. pose proof (vsqnorm_nonneg z). lra.
+  - reflexivity.
+  - reflexivity.
+  - repeat constructor. cbn. lra.
+  - reflexivity.
+  - exact Hdir.
+  - cbn. lra.
+  - rewrite HL. lra.
+  - cbn. lra.
+  - reflexivity.
+  - reflexivity.
+  - cbn. lra.
+  - reflexivity.
+  - reflexivity.
+  - rewrite HL. cbn. lra.
+  - cbn. lra.
+  - cbn. lia.
+  - exact lv_kkt_bound.
+  - cbn. lia.
+  - lia.
+Qed.
+
+(* ====================================================================================================================
+   NOTE — positive tolerance factors (quadratic_upperbound_tolerance_factor = linesearch_tolerance_factor = 10 ε_mach by default).  NOT PROVED.
+   What survives with tq := p_qub_tol > 0, tl := p_ls_tol > 0 (same proofs): a violated QUB test still forces L < Lf (the slack (1+|ψ(x)|)·tq only
+   makes the test harder to violate), so L <= max(L_init, 2 Lf), γ >= γmin and the line search terminates; an accepted step gives
+        φ(x⁺) <= φ(x) - cmin·‖p‖² + s(x),     s(x) = (1+|ψ(x)|)·tq  (safeguarded step)   or   (1+|φ_γ(x)|)·tl  (accelerated step),
+   and the lower bound of the envelope degrades to  ψinf <= φ_γ(x) + (1+|ψ(x)|)·tq.
+   What breaks, precisely:
+   (a) PanocLive.same_x_forces_zero_step (the exclusion of NoProgress) is FALSE for tl > 0, and with it the theorem "for EVERY direction oracle":
+       counter-run (oracle level): the oracle that always returns q = 0 (finite, so τ_init = 1).  The candidate is x + q = x with the same γ, its
+       QUB test is the one x already passed, and the line-search test  φ(x) <= φ(x) - σ‖p‖² + (1+|φ(x)|)·tl  ACCEPTS it as soon as
+       σ‖p‖² <= (1+|φ(x)|)·tl  (σ = β(1-Lγ)/(2γ)).  x does not move, ε stays above the tolerance, no_progress is incremented at every
+       iteration (once k reaches a multiple of max_no_progress) and the run returns NoProgress within 2·max_no_progress + 1 iterations.  So for a tolerance below sqrt((1+|φ|)·tl/σ) (≈ 1e-7·sqrt((1+|φ|)γ)
+       with the default factor; the default tolerance is 1e-8) convergence can be defeated by a direction provider; a positive-tolerance
+       theorem therefore needs the smallness hypothesis  s < cmin·δ²  (then x⁺ = x still forces ‖p‖ <= δ), or provider-specific reasoning
+       (LBFGS with H ≻ 0 never returns q = 0 for p ≠ 0; NoopDirection never takes an accelerated step).
+   (b) the smallness hypothesis cannot be stated on the problem alone with the present invariants: s(x_k) involves |ψ(x_k)| at the iterate x_k,
+       which an accelerated step may place OUTSIDE C, where ψ is not bounded below by hypothesis and ψ(x_k) is not controlled by φ_γ(x_k)
+       (φ_γ(x) <= ψ(x) only for x in C).  |φ_γ(x_k)| IS controlled (ψinf - s <= φ <= Φ0 + k·s), |ψ(x_k)| is not: a clean statement needs an
+       extra problem hypothesis such as "|ψ| <= Ψ on {x : φ_γ(x) <= Φ0 + N·s for some γ in [γmin, γ0]}" (compact sublevel sets of the envelope);
+       with it: N' = ceil((Φ0 - ψinf + (1+Ψ)·tq) / (cmin·δ² - s̄)), s̄ = (1+Ψ)·tq + (1+Φ)·tl < cmin·δ², Φ = max(|ψinf| + (1+Ψ)tq, |Φ0| + N'·s̄).
+       Doing it requires re-proving ls_invariant2 / iteration_descent / fbe_lower / pass_live with the slack terms (they take p_qub_tol = 0 and
+       p_ls_tol = 0 as hypotheses); not done here.  The check's oracle runs the default factors on the implementation (every stack must return Converged).
+   ==================================================================================================================== *)
